@@ -25,3 +25,34 @@ Lemma wedge_script_fixed_ok :
   = map (fun c => (c, EDone c)) [0;1;2;3;4;5;6;7;8;9;10;11] ++ [(13, EDone 12); (13, EDone 13)] /\
   Spec.oracle wedge_script (model_obs Fixed wedge_script) [1;2;3;4;5;6;7;8;9;10;11;12] = true.
 Proof. split; vm_compute; reflexivity. Qed.
+
+(* ---------------------------------------------------------------------------------------- *)
+(* The checker's run-to-quiescence is a run of the model: [quiesce vr s] is reached from [s] by a
+   schedule of internal events, each enabled when taken, and is at rest.  So every prediction of
+   [drive] is the observation of one schedule of the event system whose theorems are in
+   Properties/C11.v. *)
+From Kit Require Import C11.Proofs_live.
+From Coq Require Import Lia.
+
+Lemma quiesce_fuel_run vr n : forall s, (Model.measure s <= n)%nat ->
+  exists es, Forall (fun e => internal e = true) es /\
+             run vr s es = Some (quiesce_fuel n vr s) /\ stuck vr (quiesce_fuel n vr s).
+Proof.
+  induction n as [|n IH]; intros s Hm.
+  - cbn [quiesce_fuel]. exists []. split; [constructor|]. split; [reflexivity|].
+    intros e He. destruct (step vr s e) as [s1|] eqn:E; [|reflexivity].
+    pose proof (main_internal_decreases _ _ _ _ He E). lia.
+  - cbn [quiesce_fuel]. destruct (first_enabled vr s) as [e|] eqn:Ef.
+    + destruct (first_enabled_some _ _ _ Ef) as (Hi & s1 & Es). rewrite Es.
+      pose proof (main_internal_decreases _ _ _ _ Hi Es) as Hd.
+      destruct (IH s1) as (es & Hall & Hrun & Hst); [lia|].
+      exists (e :: es). split; [constructor; assumption|]. split; [|exact Hst].
+      cbn [run]. rewrite Es. exact Hrun.
+    + exists []. split; [constructor|]. split; [reflexivity|].
+      apply first_enabled_none. exact Ef.
+Qed.
+
+Lemma quiesce_is_run : forall vr s,
+  exists es, Forall (fun e => internal e = true) es /\
+             run vr s es = Some (quiesce vr s) /\ stuck vr (quiesce vr s).
+Proof. intros vr s. apply quiesce_fuel_run. apply Nat.le_refl. Qed.
